@@ -1111,6 +1111,11 @@ def run(an: Analysis, rep):
     from . import line_fold as _lf11
     rep.run(_lf11.hand_tables_rule, an, rep)
     from . import c02 as _c02p
+    from . import c10 as _c10f11
+    rep.run(_c10f11.format_rules, an, _SR(rep, "R11.F2", "line-table format constants per format (shared with C10's R10.1 - R10.4): co_lnotab / co_linetable are header fields, a limit that is right for one "
+                                                         "format only writes another table for the other, silently"))
+    rep.run(_c02p.r02f, an, _SR(rep, "R11.F3", "the decoder's instruction function folded over witness code units (shared with C02's R02.F): entries of a table that no instruction uses are all listed, "
+                                               "also when none of the table is used - otherwise to_code() writes a shorter co_names / co_consts"))
     from . import c03 as _c03w2
     rep.run(_c03w2.r035, an, _SR(rep, "R11.W2", "operand-width thresholds of the size function both sides use (shared with C03's R03.5): an operand of exactly 255 written with a prefix is other bytes than "
                                                "the code object had, although both sides agree and the round trip decodes fine"))
